@@ -134,6 +134,18 @@ def r17_3(ctx):
                      for wl in whiles) for (n, c) in wake)
         ctx.ob('R17.3', '%s:wake-token-only-for-a-grabbed-sleeper' % tag, ok, fi, wake[0][1],
                '_wait_semaphore.release() only after _sleeping_count.acquire(False) succeeded')
+        # and the converse: a grabbed sleeper (its registration is consumed) always gets its token -- otherwise it
+        # sleeps on, uncounted, and no later notify can reach it
+        grabbed = q.outcome_edges(fi, grab, True)
+        grab_tests = {a for (a, b, l) in grabbed} | {a for (a, b, l) in q.outcome_edges(fi, grab, False)}
+        wake_ids = {n.id for (n, c) in wake}
+        r = cfg.reach([b for (a, b, l) in grabbed], block_nodes=wake_ids, include_src=True, skip_labels=('x',))
+        lost = (r & grab_tests) | ({cfg.exit.id} & r)
+        ctx.ob('R17.3', '%s:every-grabbed-sleeper-gets-a-token' % tag, bool(grabbed) and not lost, fi,
+               cfg.nodes[sorted(lost)[0]] if lost and sorted(lost)[0] != cfg.exit.id else None,
+               'after _sleeping_count.acquire(False) succeeded every path posts _wait_semaphore.release()' if not lost else
+               'a sleeper registration can be consumed without posting a wake token (e.g. the quota test comes after '
+               'the grab in the loop condition): that waiter stays asleep and is no longer counted')
         in_loop = [n for (n, c) in wake if any(q.inside(fi, n, wl.stmt.body) for wl in whiles) or
                    any(q.inside(fi, n, f.stmt.body) for f in cfg.where(lambda f: f.kind == 'for'))]
         if in_loop:
@@ -253,7 +265,40 @@ def r17_4(ctx):
     ctx.ob('R17.4', 'Condition.__init__:counters-start-at-zero', ok, init, None, 'three Semaphore(0)')
 
 
+def semlock_forgets_ownership_in_a_forked_child(ctx, rule):
+    """A child forked while the parent holds a lock inherits the C-level owner count and thread ident; the after-fork
+    hook zeroes them.  It must be installed for every lock a forked child can inherit -- in particular when the
+    semaphore has been unlinked at once (start method fork), where its name is None."""
+    ctx.rule(rule, 'every SemLock registers the after-fork hook that resets the inherited owner count, whatever the '
+                   'start method', floor=2)
+    m = ctx.model
+    fi = m.func('synchronize:SemLock.__init__')
+    cfg = fi.cfg
+    reg = [(n, c) for (n, c) in q.calls(fi, lambda t: t.endswith('register_after_fork'))]
+    q.need(reg, 'SemLock.__init__ registers no after-fork hook')
+    hooks = [ch for name, ch in fi.children.items()
+             if any(isinstance(x, ast.Call) and isinstance(x.func, ast.Attribute) and x.func.attr == '_after_fork'
+                    for x in ast.walk(ch.node))]
+    ok = bool(hooks) and all(len(c.args) == 2 and ast.unparse(c.args[0]) == 'self' and
+                             ast.unparse(c.args[1]) in {h.name for h in hooks} for (n, c) in reg)
+    ctx.ob(rule, 'SemLock.__init__:hook-resets-the-C-level-owner', ok, fi, reg[0][1],
+           'register_after_fork(self, <function calling obj._semlock._after_fork()>)')
+    skip = q.outcome_edges(fi, 'sem_unlink', False)
+    r = cfg.reach([cfg.entry.id], block_nodes={n.id for (n, c) in reg}, block_edges=skip, include_src=True,
+                  skip_labels=('x',))
+    ok = cfg.exit.id not in r
+    g = set()
+    for (n, c) in reg:
+        g |= {t for (t, p) in q.guards_norm(fi, n)}
+    ctx.ob(rule, 'SemLock.__init__:hook-installed-for-every-lock', ok, fi, reg[0][1],
+           'unconditional (under sem_unlink)' if ok else
+           'the hook is installed only under %s: a lock whose semaphore was unlinked at once (start method fork) gets '
+           'none, so a child forked while the parent holds the lock believes it owns it and never waits'
+           % sorted(t for t in g if t != 'sem_unlink'))
+
+
 def run(ctx):
+    semlock_forgets_ownership_in_a_forked_child(ctx, 'R17.6')
     r17_1(ctx)
     r17_2(ctx)
     r17_3(ctx)
@@ -266,6 +311,11 @@ def run(ctx):
 
 _Y = 'billiard/synchronize.py'
 MUTANTS = [
+    ('after-fork-hook-only-for-named-semaphores', 'billiard/synchronize.py',
+     "            if sys.platform != 'win32':\n                def _after_fork(obj):\n                    obj._semlock._after_fork()\n                util.register_after_fork(self, _after_fork)\n\n            if _semname(self._semlock) is not None:\n",
+     "            if _semname(self._semlock) is not None:\n                def _after_fork(obj):\n                    obj._semlock._after_fork()\n                util.register_after_fork(self, _after_fork)\n", 'R17.6'),
+    ('sleeper-grabbed-then-quota-tested', 'billiard/synchronize.py', "        while self._sleeping_count.acquire(False):\n            self._wait_semaphore.release()        # wake up one sleeper\n",
+     "        while self._sleeping_count.acquire(False) and sleepers < 64:\n            self._wait_semaphore.release()        # wake up one sleeper\n", 'R17.3'),
     ('lock-is-recursive', _Y, "        SemLock.__init__(self, SEMAPHORE, 1, 1, ctx=ctx)\n\n    def __repr__(self):\n        try:\n            if self._semlock._is_mine():\n                name = process.current_process().name\n                if threading.current_thread().name != 'MainThread':\n                    name += '|' + threading.current_thread().name\n            elif",
      "        SemLock.__init__(self, RECURSIVE_MUTEX, 1, 1, ctx=ctx)\n\n    def __repr__(self):\n        try:\n            if self._semlock._is_mine():\n                name = process.current_process().name\n                if threading.current_thread().name != 'MainThread':\n                    name += '|' + threading.current_thread().name\n            elif", 'R17.1'),
     ('bounded-unbounded', _Y, "        SemLock.__init__(self, SEMAPHORE, value, value, ctx=ctx)", "        SemLock.__init__(self, SEMAPHORE, value, SEM_VALUE_MAX, ctx=ctx)", 'R17.1'),
